@@ -2,7 +2,6 @@ package engines
 
 import (
 	"fmt"
-	"sort"
 	"strings"
 
 	ucfg "github.com/elastic/go-ucfg"
@@ -35,6 +34,7 @@ func init() {
 	probes["O20"] = probeO20
 	probes["O21"] = probeO21
 	probes["O22"] = probeO22
+	probes["O25"] = probeO25
 	probes["O23"] = probeO23
 	probes["O24"] = probeO24
 }
@@ -367,25 +367,31 @@ func probeO20() (bool, string) {
 	})
 }
 
-// O21: the outcome of one Unpack depends on enumeration order when a cycle is
-// absorbed (by a default or by a resolver that knows the name), because the
-// per-call value cache remembers whichever evaluation context came first.
+// O21: the outcome of one Unpack depends on enumeration order when the
+// alternative operator tests a name that is still being evaluated: ${d:+x}
+// looks d up without evaluating it, so whether d counts as set depends on
+// whether d was reached through a reference (active) or read directly, and the
+// per-call value cache keeps whichever came first.
 func probeO21() (bool, string) {
+	return guard(func() (bool, string) {
+		a, b := underOrders(func() string {
+			c, _ := ucfg.NewFrom(map[string]interface{}{"a": "${d}", "d": "${d:+v}"}, sepVar...)
+			var m map[string]interface{}
+			err := c.Unpack(&m, sepVar...)
+			return fmt.Sprintf("a=%v d=%v %v", m["a"], m["d"], err)
+		})
+		return a != b, "Unpack of {a: \"${d}\", d: \"${d:+v}\"} under sorted / reversed enumeration: " + a + " / " + b
+	})
+}
+
+// O25 (repaired): a cycle absorbed by a default made one Unpack depend on order.
+func probeO25() (bool, string) {
 	return guard(func() (bool, string) {
 		a, b := underOrders(func() string {
 			c, _ := ucfg.NewFrom(map[string]interface{}{"a": "${b}x", "b": "${a:d}"}, sepVar...)
 			var m map[string]interface{}
 			err := c.Unpack(&m, sepVar...)
-			ks := make([]string, 0, len(m))
-			for k := range m {
-				ks = append(ks, k)
-			}
-			sort.Strings(ks)
-			s := ""
-			for _, k := range ks {
-				s += fmt.Sprintf("%s=%v ", k, m[k])
-			}
-			return fmt.Sprintf("%s%v", s, err)
+			return fmt.Sprintf("a=%v b=%v %v", m["a"], m["b"], err)
 		})
 		return a != b, "Unpack of {a: \"${b}x\", b: \"${a:d}\"} under sorted / reversed enumeration: " + a + " / " + b
 	})
